@@ -479,6 +479,13 @@ package bcl
 //@ func bindStmt
 //@   snapshot typetok: at consume#1.advance#1: p.current.val
 //@   assert [C04] the_bound_type_is_the_identifier_as_written: at identConst#1: $name == $typetok
+//@   snapshot selint: at match#2.advance#1: p.current.val
+//@   snapshot selword: at match#3.advance#1: p.current.val
+//@   snapshot target: at consume#3.advance#1: p.current.val
+//@   assert [C17,C04] an_accepted_numeric_selector_is_written_1: at emitOp#1: $selint == "1"
+//@   assert [C17,C04] an_accepted_word_selector_is_first_last_or_all: at emitOp#1: $selword == "first" || $selword == "last" || $selword == "all"
+//@   assert [C17,C04] an_accepted_target_is_struct_or_slice: at emitOp#1: $target == "struct" || $target == "slice"
+//@   assert [C17,C04] all_goes_to_a_slice_only: at emitOp#1: $selword == "all" ==> $target == "slice"
 //@   ensures [C17] a_statement_does_not_end_with_a_terminator: p.hadError || p.prev.typ != tSEMICOLON
 //@   requires statement_boundary: g.uninit == 0 && (p.hadError || (g.pend == F0() && g.sd == p.scope.localCount))
 //@   ensures statement_boundary: g.uninit == 0 && (p.hadError || (g.pend == F0() && g.sd == p.scope.localCount))
